@@ -84,7 +84,7 @@ def gElemW (ty : String) (x : Int) (ca : Feature → Option String) (ck : Featur
 def ParseGenStmt : Prop :=
   ∀ (K : Consts) (ts : TypeSystem) (tsIdx : Nat) (t : TypeRec) (x : Int) (ty : String)
     (ca : Feature → Option String) (ck : Feature → List (Option String)),
-    getType ts ty = .ok t → isPrimitiveArray K ty = false → ROk K t ca ck → ∀ hpCur : Heap,
+    getTypeExact ts ty = .ok t → isPrimitiveArray K ty = false → ROk K t ca ck → ∀ hpCur : Heap,
     ∃ (ext : List Obj) (o1 : Obj),
       parseFsElem K ts tsIdx hpCur (gElem ty x ca ck (allFeatures t))
         = .ok (hpCur ++ ext ++ [o1], x, (hpCur ++ ext).length) ∧
